@@ -17,6 +17,7 @@ const vndRuntimeSrc = `//go:build verif
 package PKG
 
 import (
+	"context"
 	"encoding/json"
 	"fmt"
 	"math"
@@ -33,6 +34,19 @@ type vndTapeT struct {
 }
 
 type vndStop struct{ why string }
+
+// vndDerivedCtx is the shape the symbolic executor gives to contexts made by context.WithTimeout/WithDeadline in the
+// code under test (natively the real ones are used; this type only has to exist and implement context.Context).
+type vndDerivedCtx struct {
+	parent context.Context
+	done   chan struct{}
+	err    error
+}
+
+func (c *vndDerivedCtx) Deadline() (time.Time, bool)       { return time.Time{}, false }
+func (c *vndDerivedCtx) Done() <-chan struct{}             { return c.done }
+func (c *vndDerivedCtx) Err() error                        { return c.err }
+func (c *vndDerivedCtx) Value(key interface{}) interface{} { return c.parent.Value(key) }
 
 var (
 	vndTape      vndTapeT
@@ -150,6 +164,9 @@ func vndConcretize(x int) int { return x }
 // to completion at its spawn point, so there is nothing to wait for).
 func vndSettle() { time.Sleep(300 * time.Millisecond) }
 
+// vndYield: a short pause (well below the clients' read timeout of the harnesses) that lets goroutines react.
+func vndYield() { time.Sleep(15 * time.Millisecond) }
+
 // vndAdvanceTime lets time pass beyond every pending timeout (symbolically: every time.After channel is ready).
 func vndAdvanceTime() { time.Sleep(150 * time.Millisecond) }
 
@@ -258,7 +275,7 @@ func (x *Exec) vnd(name string, args []Value) Value {
 		return stubFloat64bits(x, nil, args, nil)
 	case "vndFloat32bits":
 		return args[0]
-	case "vndSettle":
+	case "vndSettle", "vndYield":
 		return nil
 	case "vndConcretize":
 		return x.i64(int(x.concretize(args[0].(*term.Term), "vndConcretize")))
